@@ -1044,8 +1044,12 @@ def main():
     # nc code names
     hdr = open(os.path.join(lib, 'include', 'pnetcdf.h'), errors='replace').read()
     ncname = {}
-    for m in re.finditer(r'^#define\s+(NC_E\w+|NC_NOERR)\s+\(?(-?\d+)\)?', hdr, re.M):
+    ncname[0] = 'NC_NOERR'
+    all_codes = [(0, 'NC_NOERR')]
+    # error codes are written `#define NC_Exxx (<integer>)` (type/format constants have no parentheses)
+    for m in re.finditer(r'^#define\s+(NC_E\w+)\s+\(\s*([-+]?\d+)\s*\)', hdr, re.M):
         ncname.setdefault(int(m.group(2)), m.group(1))
+        all_codes.append((int(m.group(2)), m.group(1)))
 
     # driver table first (dispatcher calls through it are resolved with it)
     dpath = os.path.join(g, 'drivers', 'ncmpio', 'ncmpio_driver.c')
@@ -1158,7 +1162,10 @@ def main():
     used = set(int(x) for s in sites for f in s['frames'] + s['facts'] for x in re.findall(r'EConst \((-?\d+)\)', f))
     if tab:
         used |= {v for _, v, _ in tab} | {default}
-    o.append('Definition nc_codes : list (Z * string) :=\n  [ %s ].' % ';\n    '.join('(%s, %s)' % (zc(v), q(ncname[v])) for v in sorted(used, reverse=True) if v in ncname and v <= 0))
+    o.append('(* every error code of pnetcdf.h (#define NC_E... <integer>) and NC_NOERR *)')
+    o.append('Definition nc_codes : list (Z * string) :=\n  [ %s ].' % ';\n    '.join('(%s, %s)' % (zc(v), q(n)) for v, n in all_codes))
+    o.append('(* integer constants occurring in the continuations that are not one of them *)')
+    o.append('Definition other_constants : list Z := [ %s ].' % '; '.join(zc(v) for v in sorted(used) if v not in ncname))
     o.append('Definition driver_table : list (string * string) :=\n  [ %s ].' % ';\n    '.join('(%s, %s)' % (q(a), q(b)) for a, b in driver_table.items()))
     o.append('')
     # share identical continuations (the dispatcher APIs are generated from one m4 template)
